@@ -24,6 +24,10 @@ pub struct C15Case {
     pub singles: Vec<u32>,
     pub pairs: Vec<(u32, u32)>,
     pub check_singles: Vec<u32>,
+    /// (k, i, j): candidates 0..k revealed through a requirement, i < k required, j requested as a
+    /// soft requirement (never revealed when j >= k)
+    #[serde(default)]
+    pub soft_triples: Vec<(u32, u32, u32)>,
     pub opts: SolveOpts,
     pub exhaustive: bool,
 }
@@ -102,8 +106,13 @@ impl Monitor for C15 {
             }
         }
         let check_singles: Vec<u32> = (0..10).map(|_| r.below(n as u64) as u32).collect();
+        let mut soft_triples = vec![];
+        for _ in 0..12 {
+            let k = 1 + r.below(n as u64) as u32;
+            soft_triples.push((k, r.below(k as u64) as u32, r.below(n as u64) as u32));
+        }
         let opts = if r.chance(1, 4) { async_opts(r) } else { SolveOpts::default() };
-        C15Case { n, u, reveal, singles, pairs, check_singles, opts, exhaustive: false }
+        C15Case { n, u, reveal, singles, pairs, check_singles, soft_triples, opts, exhaustive: false }
     }
     fn check(&self, c: &C15Case, ctx: &mut Ctx) {
         let u = Rc::new(c.u.clone());
@@ -156,6 +165,34 @@ impl Monitor for C15 {
                 o => ctx.violation(format!("single problem did not produce a verdict: {}", o.tag()), format!("n={} single {i}", c.n)),
             }
         }
+        // soft path: candidates [0, k) revealed by a range requirement, candidate i required, candidate j
+        // requested directly as a soft requirement: never both
+        for &(k, i, j) in &c.soft_triples {
+            if i == j || k == 0 || i >= k {
+                continue;
+            }
+            ctx.rep.evaluations += 1;
+            ctx.rep.count("soft-path-problems");
+            // version numbers are index + 1
+            let mut uu = (*u).clone();
+            let range = uu.vs("a", 1, k + 1);
+            uu.finalize();
+            let uu = Rc::new(uu);
+            let p = Prob { reqs: vec![Req::Single(range), Req::Single(c.singles[i as usize])], cons: vec![], soft: vec![j] };
+            let (_sess, out) = solve_once(&uu, &p, &c.opts);
+            match &out {
+                Outcome::Ok(sol) => {
+                    let of_a: Vec<u32> = sol.iter().copied().filter(|&s| uu.solvs[s as usize].name == 0).collect();
+                    if of_a != vec![i] {
+                        ctx.violation(
+                            "soft requirement on another candidate of a package selected together with the required one",
+                            format!("n={} revealed 0..{k}, required {i}, soft {j} -> {:?}", c.n, of_a),
+                        );
+                    }
+                }
+                o => ctx.violation(format!("soft-path problem did not return Ok: {}", o.tag()), format!("n={} k={k} i={i} j={j}", c.n)),
+            }
+        }
         if c.exhaustive {
             ctx.rep.count("exhaustive:size-variant-combinations");
         } else if ctx.rep.samples.len() < 2 {
@@ -175,7 +212,18 @@ impl Monitor for C15 {
                 let mut r = Rng::new(n as u64 * 1000 + variant);
                 let (u, reveal, singles) = build(&mut r, n, variant);
                 let pairs: Vec<(u32, u32)> = (0..n).flat_map(|i| (i + 1..n).map(move |j| (i, j))).collect();
-                let case = C15Case { n, u, reveal, singles, pairs, check_singles: (0..n).collect(), opts: SolveOpts::default(), exhaustive: true };
+                // soft path exhaustively for small n (variant 0 only: the reveal is the range itself)
+                let mut soft_triples = vec![];
+                if variant == 0 && n <= 12 {
+                    for k in 1..=n {
+                        for i in 0..k {
+                            for j in 0..n {
+                                soft_triples.push((k, i, j));
+                            }
+                        }
+                    }
+                }
+                let case = C15Case { n, u, reveal, singles, pairs, check_singles: (0..n).collect(), soft_triples, opts: SolveOpts::default(), exhaustive: true };
                 let before = ctx.pending.len();
                 self.check(&case, ctx);
                 if ctx.pending.len() > before {
